@@ -279,6 +279,11 @@ def chunkLine (inp : Bytes) : R Bytes :=
 /-- `parseHexUint` with its 16-digit guard. -/
 def chunkSize (l : Bytes) : Option Nat := if l.length > 16 then none else parseHexUint l
 
+/-- `cr.excess` after a size line of `lineLen` bytes (without its LF) announcing `n` bytes. -/
+def nextExcess (ex : Int) (lineLen n : Nat) : Int :=
+  let ex1 : Int := ex + (lineLen + 1) + 2 - (16 + 2 * (n : Int))
+  if ex1 < 0 then 0 else ex1
+
 /-- The chunks up to and including the last-chunk line; `ex` is `cr.excess`. -/
 def readChunks : Nat → Bytes → Int → R Bytes
   | 0, _, _ => .outOfModel
@@ -292,8 +297,7 @@ def readChunks : Nat → Bytes → Int → R Bytes
       | none => .malformed
       | some n =>
         if n ≥ 2 ^ 62 then .outOfModel else
-        let ex1 : Int := ex + (line.length + 1) + 2 - (16 + 2 * (n : Int))
-        let ex2 : Int := if ex1 < 0 then 0 else ex1
+        let ex2 : Int := nextExcess ex line.length n
         if n == 0 then .complete [] rest
         else if ex2 > 16 * 1024 then .malformed
         else if rest.length < n then .incomplete
@@ -420,8 +424,17 @@ def finishBody (m : Msg) (t : Transfer) (inp : Bytes) : R Parsed :=
   | .malformed => .malformed
   | .outOfModel => .outOfModel
 
-/-- `http.ReadRequest` followed by `io.ReadAll(req.Body)`. -/
-def readRequest (inp : Bytes) : R Parsed :=
+def reqSkeleton (method uri : Bytes) (major minor : Nat) (host : Bytes) : Msg :=
+  { isReq := true, method, url := uri, major, minor, code := 0, status := [], host, te := [], cl := 0,
+    hdr := [], body := none, trailer := none }
+
+def resSkeleton (major minor code : Nat) (status : Bytes) : Msg :=
+  { isReq := false, method := [], url := [], major, minor, code, status, host := [], te := [], cl := 0,
+    hdr := [], body := none, trailer := none }
+
+/-- `http.ReadRequest`: the request line and the header section; the body is not touched. The
+result is the message skeleton, the framing decision and the bytes after the blank line. -/
+def readRequestHead (inp : Bytes) : R (Msg × Transfer) :=
   match readLine inp with
   | none => .incomplete
   | some (line, r1) =>
@@ -447,9 +460,15 @@ def readRequest (inp : Bytes) : R Parsed :=
             let hs1 := fixPragma hs
             let close0 := shouldClose major minor hs1
             liftE (readTransfer false method 200 major minor close0 hs1) fun t =>
-              finishBody { isReq := true, method, url := uri, major, minor, code := 0, status := [],
-                           host, te := [], cl := 0, hdr := [], body := none, trailer := none }
-                { t with hdr := del t.hdr hostKey } r2
+              .complete (reqSkeleton method uri major minor host, { t with hdr := del t.hdr hostKey }) r2
+
+/-- `http.ReadRequest` followed by `io.ReadAll(req.Body)`. -/
+def readRequest (inp : Bytes) : R Parsed :=
+  match readRequestHead inp with
+  | .complete (m, t) r => finishBody m t r
+  | .incomplete => .incomplete
+  | .malformed => .malformed
+  | .outOfModel => .outOfModel
 
 /-- `strings.Cut(resp.Status, " ")`: the status code as written. -/
 def codeOf (status : Bytes) : Bytes :=
@@ -457,8 +476,8 @@ def codeOf (status : Bytes) : Bytes :=
   | some (c, _) => c
   | none => status
 
-/-- `http.ReadResponse(r, req)` with `req.Method = reqMethod`, followed by `io.ReadAll(res.Body)`. -/
-def readResponse (reqMethod : Bytes) (inp : Bytes) : R Parsed :=
+/-- `http.ReadResponse(r, req)` with `req.Method = reqMethod`: status line and header section. -/
+def readResponseHead (reqMethod : Bytes) (inp : Bytes) : R (Msg × Transfer) :=
   match readLine inp with
   | none => .incomplete
   | some (line, r1) =>
@@ -483,8 +502,15 @@ def readResponse (reqMethod : Bytes) (inp : Bytes) : R Parsed :=
           -- shouldClose(…, removeCloseHeader = true)
           let hs2 := if major ≥ 1 && !(major == 1 && minor == 0) && close0 then del hs1 connKey else hs1
           liftE (readTransfer true reqMethod code major minor close0 hs2) fun t =>
-            finishBody { isReq := false, method := [], url := [], major, minor, code, status,
-                         host := [], te := [], cl := 0, hdr := [], body := none, trailer := none } t r2
+            .complete (resSkeleton major minor code status, t) r2
+
+/-- `http.ReadResponse` followed by `io.ReadAll(res.Body)`. -/
+def readResponse (reqMethod : Bytes) (inp : Bytes) : R Parsed :=
+  match readResponseHead reqMethod inp with
+  | .complete (m, t) r => finishBody m t r
+  | .incomplete => .incomplete
+  | .malformed => .malformed
+  | .outOfModel => .outOfModel
 
 /-! ### streams: pipelined requests, responses on a kept-alive connection -/
 
